@@ -112,3 +112,11 @@ def outputs_refiled(O):
 def constructor_call(O):
     from . import C02
     C02.try_new(dri.WithRep(O, rep()))
+
+
+@obligation("C13/handle-io-protocol", desc="handle_io: a checked row always makes the output-reading call and validates that "
+            "call's answer (whatever the first answer looked like); an unchecked row makes the write-only call; the call's "
+            "error is returned whatever the row's changed flags say")
+def handle_io_protocol(O):
+    from . import C02
+    C02.handle_io(dri.WithRep(O, rep()))
